@@ -54,9 +54,10 @@ RULE = (
     "inline /CS name, form XObject name, image XObject name, image name inside a form) carries a hostile string: absolute "
     "paths, ../ chains (#2F-escaped in names), .pickle.gz suffixes, NULs (also NULs that only produce '..' once stripped), "
     "300-byte names, names of existing files (also symbolic links, dangling or not), '.', '..', empty, doubled separators, "
-    "'....//' (a '../' left behind by a one-pass filter), prefix-confusion siblings (<dir>_evil), "
+    "'....//' (a '../' left behind by a one-pass filter), prefix-confusion siblings (<dir>_evil), traversals that stay inside one "
+    "allowed directory but leave the other (sibling of CMAP_PATH named like the bundled cmap directory, and the converse), "
     "Windows separators, ~ and $VAR, non-UTF-8 bytes; enumerated over output types text/xml/html and output-directory "
-    "modes (absolute, relative, odd spelling, symlinked, not yet existing, none), CMAP_PATH set/unset; plus seeded random "
+    "modes (absolute, relative, odd spelling, symlinked, not yet existing, none), CMAP_PATH set/unset/mirror; plus seeded random "
     "strings built from the same fragments and random slot/image-kind/xref combinations; control documents carry no hostile "
     "string. distinct = distinct (slot, string template, output type, output mode, env mode, variant); non-trivial = the "
     "slot string is hostile (not a control)."
@@ -124,6 +125,8 @@ OUTMODES = ["abs", "rel", "odd", "link", "missing", "none"]
 #   @RELX@    16 x "../" followed by the absolute path without its leading "/"
 #   @ROOT@    the scratch root;  @ABS@ an existing directory deep inside it
 #   @OUTBASE@ last component of output_dir as passed
+#   @REL_LIB_M@ a second decoy (<root>/res/decoys/m/1/2/3/decoy) relative to <repo>/pdfminer/cmap
+#   @LIBBASE@ / @ENVBASE@ last component of the bundled cmap directory / of the CMAP_PATH directory
 # --------------------------------------------------------------------------
 READ_STRINGS: List[Tuple[str, bytes]] = [
     ("abs", b"@DECOY@"),
@@ -145,7 +148,18 @@ READ_STRINGS: List[Tuple[str, bytes]] = [
     ("long_chain", b"./" * 140 + b"../decoys/decoy"),
     ("existing_file", b"90ms-RKSJ-H.pickle.gz"),
     ("existing_umap_as_cmap", b"to-unicode-Adobe-Japan1"),
-    ("inside_via_dotdot", b"../cmap/90ms-RKSJ-H"),
+    # inside one allowed directory, outside the other: <CMAP_PATH>/../<basename of the bundled directory>/ is a planted
+    # sibling holding decoys (one named like a real CMap), so a confinement test made against the wrong directory opens it
+    ("sibling_named_like_lib_dir", b"../@LIBBASE@/decoy"),
+    ("sibling_named_like_lib_dir_real_name", b"../@LIBBASE@/90ms-RKSJ-H"),
+    ("sibling_named_like_lib_dir_dot", b"./../@LIBBASE@/./decoy"),
+    # the converse (inside CMAP_PATH, outside the bundled directory); its target <repo>/pdfminer/<basename of CMAP_PATH>/ is never
+    # created (nothing is written into the repository), so only an attempted open there would be seen
+    ("sibling_named_like_env_dir", b"../@ENVBASE@/VF-Custom-H"),
+    ("sibling_named_like_env_dir_decoy", b"../@ENVBASE@/decoy"),
+    # reachable converse: with CMAP_PATH = <root>/mirror/<first components of the decoy path> (env mode "mirror") this name stays
+    # inside CMAP_PATH (where nothing has that name) but from the bundled directory it leads to a decoy outside both
+    ("mirror_inside_env_outside_lib", b"@REL_LIB_M@"),
     ("dot", b"."),
     ("dotdot", b".."),
     ("empty", b""),
@@ -164,6 +178,12 @@ READ_STRINGS: List[Tuple[str, bytes]] = [
     ("proc_environ", b"../../../../../../../../proc/self/environ"),
     ("percent", b"..%2F..%2Fdecoys%2Fdecoy"),
 ]
+REACHABLE_READ_TAGS = {
+    "abs", "abs_suffix", "abs_dslash", "rel_lib", "rel_pad", "rel_env", "rel_env_dot", "rel_env_dslash", "nested_dotdot",
+    "rel_env_sub", "nul_in_chain", "nul_makes_dotdot", "nul_tail", "prefix_confusion", "sibling_named_like_lib_dir",
+    "sibling_named_like_lib_dir_real_name", "sibling_named_like_lib_dir_dot", "sibling_named_like_env_dir",
+    "sibling_named_like_env_dir_decoy", "mirror_inside_env_outside_lib",
+}
 READ_CONTROLS: List[Tuple[str, bytes]] = [
     ("ctl_90ms", b"90ms-RKSJ-H"), ("ctl_unijis", b"UniJIS-UCS2-H"), ("ctl_identity", b"Identity-H"),
     ("ctl_env_custom", b"VF-Custom-H"), ("ctl_H", b"H"), ("ctl_gbk", b"GBK-EUC-H"), ("ctl_unknown", b"NoSuchCMap-H"),
@@ -242,6 +262,7 @@ def minimums(tier: str) -> Dict[str, int]:
         "seen:slots": len(ALL_SLOTS) + 1,
         "seen:otypes": 3,
         "seen:outmodes": len(OUTMODES),
+        "seen:envmodes": 3,
         "seen:image_kinds": len(IMAGE_KINDS),
         "seen:read_tags": len(READ_STRINGS) + len(READ_CONTROLS),
         "seen:write_tags": len(WRITE_STRINGS) + len(WRITE_CONTROLS),
@@ -288,10 +309,16 @@ def enum_cases() -> List[Dict[str, Any]]:
             add(slot, tag, h)
     # the reachable traversals with every output type and with CMAP_PATH unset
     for slot in ["encoding_name", "cmapname_stream", "usecmap_cid", "usecmap_simple", "registry_sub", "ordering_sub"]:
-        for tag, h in READ_STRINGS[:14]:
+        for tag, h in [x for x in READ_STRINGS if x[0] in REACHABLE_READ_TAGS]:
             for ot in OTYPES:
                 add(slot, tag, h, otype=ot, env="set")
             add(slot, tag, h, env="unset")
+    # CMAP_PATH pointing at the mirror directory: the name that is inside it but leads outside from the bundled directory
+    for slot in ["encoding_name", "cmapname_stream", "cmapname_dict", "usecmap_cid", "usecmap_simple", "usecmap_string"]:
+        for ot in OTYPES:
+            add(slot, "mirror_inside_env_outside_lib", b"@REL_LIB_M@", otype=ot, env="mirror")
+            add(slot, "abs", b"@DECOY@", otype=ot, env="mirror")
+            add(slot, "ctl_env_custom", b"VF-Custom-H", otype=ot, env="mirror")
     # write-type strings through the slots that name an image, every output type, two image kinds each
     for slot in WRITE_SLOTS:
         for tag, h in WRITE_STRINGS + WRITE_CONTROLS:
@@ -328,12 +355,13 @@ class Scratch:
         self.envdir = os.path.join(r, "res", "cmapenv")
         self.decoydir = os.path.join(r, "res", "decoys")
         self.evildir = os.path.join(r, "res", "cmapenv_evil")
+        self.libtwin = os.path.join(r, "res", os.path.basename(LIB_CMAP_DIR))   # sibling of CMAP_PATH named like the bundled dir
         self.cwd = os.path.join(r, "c", *[str(k) for k in range(1, OUT_DEPTH - 1)], "cwd")
         self.work = os.path.join(r, "w", *[str(k) for k in range(1, OUT_DEPTH - 1)])
         self.physical_out = os.path.join(self.work, "out")
         self.decoy_files: List[str] = []
         self.absdir = os.path.join(r, "a", *[str(k) for k in range(1, OUT_DEPTH - 1)], "abs")
-        for d in (self.envdir, self.decoydir, self.evildir, self.cwd, self.physical_out, self.absdir):
+        for d in (self.envdir, self.decoydir, self.evildir, self.libtwin, self.cwd, self.physical_out, self.absdir):
             os.makedirs(d)
         # a configured resource directory with two legitimate custom maps and sub-directories
         self._w(os.path.join(self.envdir, "VF-Custom-H.pickle.gz"), _CUSTOM_CMAP_GZ)
@@ -346,10 +374,30 @@ class Scratch:
                 self._w(p, _DECOY_GZ)
                 self.decoy_files.append(p)
         for sfx in DECOY_SUFFIXES:
-            p = os.path.join(self.evildir, "decoy" + sfx + ".pickle.gz")
+            for p in (os.path.join(self.evildir, "decoy" + sfx + ".pickle.gz"),
+                      os.path.join(self.libtwin, "decoy" + sfx + ".pickle.gz"),
+                      os.path.join(self.libtwin, "90ms-RKSJ-H" + sfx + ".pickle.gz")):
+                self._w(p, _DECOY_GZ)
+                self.decoy_files.append(p)
+        self.decoy_base = os.path.join(self.decoydir, "decoy")
+        # "mirror" resource directory: <root>/mirror/<t1>/../<tu> where ../ x u + t1/t2/... is the way from the bundled
+        # directory to a second decoy; that relative name, joined onto the mirror directory, stays inside it
+        self.mdecoy_base = os.path.join(self.decoydir, "m", "1", "2", "3", "decoy")
+        os.makedirs(os.path.dirname(self.mdecoy_base))
+        for sfx in DECOY_SUFFIXES:
+            p = self.mdecoy_base + sfx + ".pickle.gz"
             self._w(p, _DECOY_GZ)
             self.decoy_files.append(p)
-        self.decoy_base = os.path.join(self.decoydir, "decoy")
+        self.rel_lib_m = os.path.relpath(self.mdecoy_base, LIB_CMAP_DIR)
+        parts = self.rel_lib_m.split(os.sep)
+        ups = len([x for x in parts if x == ".."])
+        tail = parts[ups:]
+        self.mirror_env = self.envdir
+        if 0 < ups < len(tail):
+            self.mirror_env = os.path.join(r, "mirror", *tail[:ups])
+            os.makedirs(self.mirror_env)
+            self._w(os.path.join(self.mirror_env, "VF-Custom-H.pickle.gz"), _CUSTOM_CMAP_GZ)
+            self._w(os.path.join(self.mirror_env, "to-unicode-VF-Test.pickle.gz"), _CUSTOM_UMAP_GZ)
         # sentinels: files named like the images a document would produce, in and next to the output directory
         os.symlink("out", os.path.join(self.work, "outlink"))
         self._w(os.path.join(self.absdir, "victim.bmp"), b"SENTINEL abs victim")
@@ -428,10 +476,17 @@ class Scratch:
         t = t.replace(b"@ROOT@", os.fsencode(self.root))
         t = t.replace(b"@ABS@", os.fsencode(self.absdir))
         t = t.replace(b"@OUTBASE@", os.fsencode(self.outbase))
+        t = t.replace(b"@REL_LIB_M@", os.fsencode(self.rel_lib_m))
+        t = t.replace(b"@LIBBASE@", os.fsencode(os.path.basename(LIB_CMAP_DIR)))
+        t = t.replace(b"@ENVBASE@", os.fsencode(os.path.basename(self.envdir)))
         return t
 
     def read_dirs(self) -> List[str]:
-        return [LIB_CMAP_DIR, self.envdir if self.env == "set" else DEFAULT_ENV_CMAP_DIR]
+        return [LIB_CMAP_DIR, self.env_path() or DEFAULT_ENV_CMAP_DIR]
+
+    def env_path(self) -> Optional[str]:
+        """The value of CMAP_PATH for this run (None: unset)."""
+        return {"set": self.envdir, "mirror": self.mirror_env}.get(self.env)
 
     def cleanup(self) -> None:
         shutil.rmtree(self.root, ignore_errors=True)
@@ -744,8 +799,8 @@ def run_case(case: Dict[str, Any], monitor: bool = True, rec: Any = None) -> Lis
             if rec is not None:
                 rec.inconclusive("unsafe_write_target_not_run")
             return [("harness:unsafe_write_target", repr(h[:200]))]
-        if case["env"] == "set":
-            os.environ["CMAP_PATH"] = sc.envdir
+        if sc.env_path() is not None:
+            os.environ["CMAP_PATH"] = sc.env_path()
         else:
             os.environ.pop("CMAP_PATH", None)
         os.chdir(sc.run_cwd)
@@ -895,6 +950,7 @@ def _eval(case: Dict[str, Any], rec) -> None:
     rec.see("slots", case["slot"])
     rec.see("otypes", case["otype"])
     rec.see("outmodes", case["outmode"])
+    rec.see("envmodes", case["env"])
     if case["slot"] in WRITE_SLOTS + NAME_SLOTS[1:] and case["tag"] in dict(WRITE_STRINGS + WRITE_CONTROLS):
         rec.see("write_tags", case["tag"])
     if case["tag"] in dict(READ_STRINGS + READ_CONTROLS) and case["slot"] in READ_SLOTS + ["basefont"]:
@@ -951,6 +1007,7 @@ R_FRAGS = [b"../", b"../", b"../", b"./", b"//", b"/", b"..", b".", b"\x00", b"\
            b"decoys/", b"decoy", b"escaped", b"victim", b"Im0", b"Im1", b"Lnk1", b"Lnk2", b".pickle.gz", b".bmp", b" ", b"%2F", b"~", b"$HOME",
            b"to-unicode-vf/", b"cmapenv_evil/", b"@OUTBASE@_evil/", b"\xff", b"\xc3\xa4", b"A" * 40, b"-", b"x"]
 R_HEADS_READ = [b"", b"", b"@DECOY@", b"/@DECOY@", b"@REL_LIB@", b"@RELX@", b"../decoys/decoy", b"../cmapenv_evil/decoy",
+                b"../@LIBBASE@/decoy", b"../@LIBBASE@/", b"../@ENVBASE@/", b"./../@LIBBASE@/90ms-RKSJ-H", b"@REL_LIB_M@",
                 b"@ROOT@/res/decoys/decoy", b"90ms-RKSJ-H"]
 R_HEADS_WRITE = [b"", b"", b"../", b"../../", b"@ABS@/", b"/@ABS@/", b"../@OUTBASE@_evil/", b"sub/", b"Im0", b"./", b"Lnk1"]
 
@@ -988,7 +1045,7 @@ def gen_random(rng: random.Random) -> Dict[str, Any]:
         if t[:1] == b"/" and not t.lstrip(b"/").startswith((b"@ROOT@/", b"@ABS@/")):
             h = b"x" + h
     return {"slot": slot, "tag": tag, "h": h, "otype": rng.choice(OTYPES), "outmode": rng.choice(OUTMODES + ["abs", "abs"]),
-            "env": "set" if rng.random() < 0.8 else "unset", "v": rng.randrange(10000)}
+            "env": rng.choice(["set"] * 7 + ["unset", "unset", "mirror"]), "v": rng.randrange(10000)}
 
 
 # --------------------------------------------------------------------------
